@@ -94,14 +94,16 @@ def _dot_stream(ctx: Ctx):
     """'.' expansion through the parser model"""
     rng = ctx.fork("dot")
     lits, descr, strings = [], [], []
-    cols = ["y", "a", "b", "c", "x1"]
+    cols = ["y", "a", "b", "c", "x1", "x y", "z-1"]           # two of the columns have names that must be quoted
     for i in range(ctx.n(250, 4000)):
         avail = rng.sample(cols, rng.randint(1, len(cols)))
         lhs = rng.sample(cols, rng.randint(0, 2))
-        lhs_text = list(lhs)
+        lhs_text = [v if v.isidentifier() else f"`{v}`" for v in lhs]
         # variables may be used on the left through Python code, {} blocks and quoted names, not only as bare names
         for k, v in enumerate(lhs):
             r = rng.random()
+            if not v.isidentifier() and r < 0.35:
+                r = 0.36 + r / 2
             if r < 0.15:
                 lhs_text[k] = f"log({v})"
             elif r < 0.25:
@@ -109,10 +111,12 @@ def _dot_stream(ctx: Ctx):
             elif r < 0.35:
                 lhs_text[k] = f"`{v}`"
             elif r < 0.42:
-                w = rng.choice(cols)
-                lhs_text[k] = f"I({v}*{w})"
+                w = rng.choice(cols[:5])
+                lhs_text[k] = f"I({v}*{w})" if v.isidentifier() else f"I(`{v}`*{w})"
                 if w not in lhs:
                     lhs = lhs + [w]
+            elif r < 0.6:
+                lhs_text[k] = rng.choice([f"log(`{v}`)", "{`" + v + "` + 1}", f"I(`{v}` * 2)"])      # a quoted name inside Python code
         s = (" + ".join(lhs_text) + " ~ " if lhs_text else "") + rng.choice([".", ". - a", ". + a:b", "(.)^2", ". : b", "a + ."])
         out, kind, res = G.run_impl(s, True, (True, True, False), avail)
         lits.append(G.case_literal(s, True, (True, True, False), avail, out))
